@@ -80,6 +80,11 @@ func c02GenOp(t *rapid.T, first bool, ver int) *world.Op {
 				op.Chart.Resources[k].NS = "other"
 			}
 		}
+		// an upgrade to a chart version that renders no resource at all (everything switched off): all of the deployed
+		// revision's resources are stale then
+		if op.Kind == "upgrade" && rapid.IntRange(0, 9).Draw(t, "rendersNothing") == 0 {
+			op.Chart.Resources = nil
+		}
 		// one object of a kind that the cluster serves under two API versions; charts move from one to the other
 		if rapid.IntRange(0, 2).Draw(t, "withHPA") == 0 {
 			op.Chart.Resources = append(op.Chart.Resources, world.Res{Kind: "HorizontalPodAutoscaler", Name: "hpa", Variant: rapid.IntRange(0, 2).Draw(t, "hpaVariant"),
